@@ -212,6 +212,9 @@ func (s *Sim) RoundTrip(hr *http.Request) (*http.Response, error) {
 			return resp, err
 		}
 	}
+	if isSubscriptionOp(req.Query) {
+		return s.subscription(s.rt[idx], req, in.OperationName), nil
+	}
 	out := s.execute(s.rt[idx], req, in.OperationName)
 	var h http.Header
 	if s.RespHeader != nil {
@@ -246,7 +249,7 @@ func (s *Sim) execute(rt *sgRuntime, req *Request, opName string) []byte {
 			s.Provenance(req, Identity(parentType, parent), f.Name)
 		}
 	}
-	res := refexec.Execute(rt.schema, doc, &sgResolver{s: s, rt: rt, req: req}, opts)
+	res := refexec.Execute(rt.schema, doc, &sgResolver{s: s, rt: rt, req: req, event: -1}, opts)
 	return res.JSON()
 }
 
@@ -324,9 +327,10 @@ func (s *Sim) ownershipWalk(rt *sgRuntime, req *Request, set gast.SelectionSet, 
 }
 
 type sgResolver struct {
-	s   *Sim
-	rt  *sgRuntime
-	req *Request
+	s     *Sim
+	rt    *sgRuntime
+	req   *Request
+	event int // index of the subscription event being rendered (-1: not a subscription)
 }
 
 func (r *sgResolver) Resolve(pt *gast.Definition, parent Obj, f *gast.Field, args map[string]any, path []any) (any, error) {
@@ -338,6 +342,9 @@ func (r *sgResolver) Resolve(pt *gast.Definition, parent Obj, f *gast.Field, arg
 		root := u.Root[pt.Name]
 		if root == nil {
 			return nil, nil
+		}
+		if pt.Name == "Subscription" && r.event >= 0 {
+			return EventValue(root, f.Name, r.event), nil
 		}
 		return u.fieldValue(u.S.Type(pt.Name), root, f.Name, args, func(fn string) (any, bool) { v, ok := root[fn]; return v, ok })
 	}
@@ -456,4 +463,64 @@ func Identity(parentType string, parent Obj) any {
 		return fmt.Sprintf("%p", o)
 	}
 	return fmt.Sprintf("%p", parent)
+}
+
+func isSubscriptionOp(q string) bool {
+	doc, err := parser.ParseQuery(&gast.Source{Input: q})
+	return err == nil && len(doc.Operations) > 0 && doc.Operations[0].Operation == gast.Subscription
+}
+
+// EventValue: the value of a subscription root field for event i (the universe
+// holds a list of events per subscription field).
+func EventValue(root Obj, field string, i int) any {
+	evs, _ := root[field].([]any)
+	if i < 0 || i >= len(evs) {
+		return nil
+	}
+	return evs[i]
+}
+
+// Events returns the number of events of a subscription root field.
+func (u *Universe) Events(field string) int {
+	root := u.Root["Subscription"]
+	if root == nil {
+		return 0
+	}
+	evs, _ := root[field].([]any)
+	return len(evs)
+}
+
+// subscription answers a subscription operation as a server-sent event stream:
+// one `next` event per event of the (single) root field, then `complete`.
+func (s *Sim) subscription(rt *sgRuntime, req *Request, opName string) *http.Response {
+	doc, perr := parser.ParseQuery(&gast.Source{Input: req.Query})
+	if perr != nil {
+		req.Problems = append(req.Problems, "subgraph subscription does not parse: "+perr.Error())
+		return jsonResp(400, []byte(`{"errors":[{"message":"parse error"}]}`), nil)
+	}
+	if errs := validator.Validate(rt.schema, doc); len(errs) > 0 {
+		req.Problems = append(req.Problems, "subgraph request is not valid for the subgraph schema: "+errs[0].Message)
+		return jsonResp(400, []byte(`{"errors":[{"message":"validation error"}]}`), nil)
+	}
+	req.OpType = "subscription"
+	field := ""
+	for _, op := range doc.Operations {
+		s.ownershipWalk(rt, req, op.SelectionSet, nil, doc, map[string]bool{})
+		for _, sel := range op.SelectionSet {
+			if f, ok := sel.(*gast.Field); ok && field == "" {
+				field = f.Name
+			}
+		}
+	}
+	var sb strings.Builder
+	for i := 0; i < s.U.Events(field); i++ {
+		res := refexec.Execute(rt.schema, doc, &sgResolver{s: s, rt: rt, req: req, event: i}, refexec.Options{OperationName: opName, Variables: req.Variables, Root: RootObj("")})
+		sb.WriteString("event: next\ndata: ")
+		sb.Write(res.JSON())
+		sb.WriteString("\n\n")
+	}
+	sb.WriteString("event: complete\n\n")
+	h := http.Header{}
+	h.Set("Content-Type", "text/event-stream")
+	return jsonResp(200, []byte(sb.String()), h)
 }
